@@ -146,8 +146,12 @@ func propConfig(id, verifDir string) PropConfig {
 	switch id {
 	case "C09":
 		return PropConfig{Pkgs: []string{"./util"}, ExtSpecs: ext}
-	case "C06":
+	case "C06", "C18":
 		return PropConfig{Pkgs: []string{"./util", "./ytypes"}, ExtSpecs: ext}
+	case "C28":
+		return PropConfig{Pkgs: []string{"./protogen"}, ExtSpecs: ext}
+	case "C11", "C20":
+		return PropConfig{Pkgs: []string{"./util", "./ytypes", "./ygot", "./gnmidiff"}, ExtSpecs: ext}
 	}
 	return PropConfig{Pkgs: []string{"./util"}, ExtSpecs: ext}
 }
